@@ -6,6 +6,7 @@ pub mod c04;
 pub mod c05;
 pub mod c06;
 pub mod c07;
+pub mod c09b;
 pub mod c10;
 pub mod c11;
 pub mod c12;
@@ -53,6 +54,7 @@ pub fn run(id: &str, tier: Tier) -> Option<Report> {
         "C09" => {
             let mut rep = Report::new("C09", "model_checking", tier);
             table::run_c09(tier, &mut rep);
+            c09b::run(tier, &mut rep);
             finalize_counts(&mut rep);
             rep
         }
@@ -101,6 +103,7 @@ pub fn replay(id: &str, v: &serde_json::Value) -> i32 {
         "C08" => {
             if v["part"] == "bucket" { table::replay_bucket(v) } else { table::replay_table(v, true, false) }
         }
+        "C09" if v["part"] == "binding" => c09b::replay(v),
         "C09" => table::replay_table(v, false, true),
         "C10" => c10::replay(v),
         "C11" => c11::replay(v),
